@@ -31,7 +31,8 @@ class ExplainerCheck(Check):
 
     def gen(self, seed, tier, run_index):
         rng = seeds.run_rng(seed, self.prop, tier, run_index)
-        long = tier == "thorough" and run_index % 25 == 7
+        # long-history / larger-d stratum: 4 % of the thorough runs, 2 % of the quick ones
+        long = run_index % 25 == 7 if tier == "thorough" else run_index % 50 == 7
         return gen_explainer_plan(rng, self.prop, self.focus, long=long)
 
     def factory(self, world, plan):
